@@ -45,6 +45,9 @@ func ZZNewModel(tag string, n int) *ZZModelReader {
 
 func (m *ZZModelReader) Close() error { m.Closed = true; return nil }
 
+// Failed reports whether the injected error was actually returned to a caller.
+func (m *ZZModelReader) Failed() bool { return m.final == ZZErrUpstream }
+
 func (m *ZZModelReader) Read(ctx context.Context, out frame.Frame) (int, error) {
 	m.Reads++
 	if m.final != nil {
